@@ -14,18 +14,27 @@ variable {ρ β : Type}
 /-- the former failing family: the parallel path -/
 def KnownOutputLost (w : Nat) : Bool := decide (1 < w)
 
-/-- former guarantee: the handler list in the serial path, nothing (`none`, observed: empty file) otherwise -/
-def onDiskOld (c : Cfg ρ β) (s : State β) (k : Nat) : Option (List β) :=
-  if KnownOutputLost c.w then none else some (s.outs k)
+/-- former guarantee: the handler list when the last call was serial, nothing (`none`, observed: empty file) otherwise -/
+def onDiskOld (s : State β) (k : Nat) : Option (List β) :=
+  if KnownOutputLost s.w then none else some (s.outs k)
 
 /-- with the former behaviour the statement of `C42_disk` was false: one file, one handler, two workers -/
 theorem C42_old_output_lost :
     ¬ ∀ (c : Cfg Nat Nat) (s : State Nat), Reach c s → isFinal s = true → ∀ k, k < c.nh →
-        ∃ l, onDiskOld c s k = some l ∧ l.Perm (serialOut c k) := by
+        ∃ l, onDiskOld s k = some l ∧ l.Perm (serialOut c s.all k) := by
   intro h
-  let c : Cfg Nat Nat := { files := [0], lint := fun f => f, ok := fun _ => true, nh := 1, handle := fun _ r => r, w := 2 }
-  obtain ⟨s, _, hr, hf, _⟩ := C42_serial_run c (by decide)
-  obtain ⟨l, hl, _⟩ := h c s hr hf 0 (by decide)
-  simp [onDiskOld, KnownOutputLost, c] at hl
+  let c : Cfg Nat Nat := { lint := fun f => f, ok := fun _ => true, nh := 1, handle := fun _ r => r }
+  have h1 : replay c init [.call [0] 2, .start 0, .append 0 0, .finish 0] =
+      some ⟨[0], 2, [], [], [0], upd (fun _ => []) 0 [0], upd (fun _ => []) 0 [0], 1⟩ := by
+    simp [replay, step, init, isFinal, c]
+  have hr := replay_reach c _ _ _ Reach.init h1
+  obtain ⟨l, hl, _⟩ := h c _ hr (by simp [isFinal]) 0 (by decide)
+  simp [onDiskOld, KnownOutputLost] at hl
+
+/-- seeded change `init-parallel-drops-earlier-reports` as a regression statement: if `call` emptied the
+handler lists (as an `init_parallel` that does not copy the collected reports would), a serial call followed
+by a parallel one would lose the first call's report — the model's `call` keeps them (`C42_handlers_perm`). -/
+example : (replay exCfg init [.call [7] 1, .start 7, .append 7 0, .append 7 1, .finish 7, .call [0] 2]).map
+    (fun s => (s.outs 0, s.outs 1)) = some ([71], [72]) := by decide
 
 end LokiModel.C42.Old
